@@ -7,7 +7,7 @@ PID = 'C05'
 RULE = ('roll(w, s, inner) for every 1 <= w,s <= 8 (thorough: 12) x stream lengths 0..40 (thorough 80), '
         'inner pipeline to_list / count(reduce) / last / identity / sum, at top level, under group_by with interleaved '
         'keys, and nested in roll/split; plus random (w, s, n). non-trivial = at least one window wraps the ring '
-        '(n > density * s) or >= 2 windows open at completion; distinct = distinct case JSON')
+        '(n > density * s) or >= 2 windows open at completion; distinct = distinct case JSON; a scale family: windows and strides of 50..1001 (window = k*stride + small remainder) and one key with more than 65536 items (oracle only above 450 events)')
 TRUSTED = ['modelled not verified: RxPY synchronous delivery; typed arrays of MemoryStore (tied by C14)']
 ASSUMPTIONS = ['window >= 1, stride >= 1 (rs.data.roll raises ValueError otherwise)']
 SHARD = 150
@@ -54,6 +54,15 @@ def generate(rng, tier):
         w, s = rng.randint(1, 9), rng.randint(1, 9)
         n = rng.choice([0, 1, 2, 4, 7, 11, 16, 25, 33])
         cases.append(mk(w, s, n, rng.choice(INNERS), rng.choice(['top', 'group', 'keys', 'nested', 'split', 'keys']), rng))
+    # scale: large windows and strides (ring density arithmetic at window = k*stride + small remainder), keys with
+    # more items than 16-bit counters hold
+    big = [(201, 200), (501, 250), (1001, 1000), (64, 50), (50, 7), (128, 128), (257, 3), (300, 299), (256, 255), (3, 200)]
+    for (w, s) in (rng.sample(big, 5) if tier == 'quick' else big if tier == 'thorough' else rng.sample(big, 1)):
+        for n in ([w + s + 3] if tier != 'thorough' else [w - 1, w, w + s + 3, 2 * w + 5]):
+            cases.append(mk(w, s, n, [['to_list']], 'top', rng))
+    if tier != 'search':
+        for (w, s) in ([rng.choice([(3, 2), (4, 2), (5, 3)])] if tier == 'quick' else [(3, 2), (4, 2), (5, 3), (50, 7)]):
+            cases.append(mk(w, s, 65536 + 2 * w + 5, [['to_list']], 'top', rng))
     return cases
 
 
@@ -131,7 +140,8 @@ def describe(cases, obs):
         rel['s<w' if c['s'] < c['w'] else 's=w' if c['s'] == c['w'] else 's>w'] += 1
         rel['w%s!=0'] += 1 if c['w'] % c['s'] else 0
         ctx[c['ctx']] = ctx.get(c['ctx'], 0) + 1
-    return {'stride_vs_window': rel, 'contexts': ctx, 'max_len': max(len(c['trace']) for c in cases)}
+    return {'stride_vs_window': rel, 'contexts': ctx, 'max_len': max(len(c['trace']) for c in cases),
+            'largest_window': max(c['w'] for c in cases), 'largest_stride': max(c['s'] for c in cases)}
 
 
 def coq_preamble():
